@@ -24,7 +24,7 @@ import (
 // signers ... are indices modulo the current state) so a case replays from JSON.
 
 type c29Op struct {
-	Kind   string `json:"k"`            // ext: extend the current canonical head; fork: build on an earlier stored header; mut: one broken rule
+	Kind   string `json:"k"`            // ext: extend the current canonical head; fork: build on an earlier stored header; side: extend the newest non-canonical header; mut: one broken rule
 	Parent int    `json:"p,omitempty"`  // fork: which of the most recent stored headers
 	Signer int    `json:"s,omitempty"`  // which allowed validator seals
 	InTurn bool   `json:"it,omitempty"` // prefer the in-turn validator when allowed
@@ -59,11 +59,13 @@ func genKeyList(t *rapid.T, label string, lo, hi int) []int {
 func genC29Op(t *rapid.T) c29Op {
 	op := c29Op{}
 	switch k := rapid.IntRange(0, 99).Draw(t, "kind"); {
-	case k < 58:
+	case k < 54:
 		op.Kind = "ext"
-	case k < 72:
+	case k < 64:
 		op.Kind = "fork"
 		op.Parent = rapid.IntRange(0, 7).Draw(t, "parent")
+	case k < 74:
+		op.Kind = "side" // extend the most recently stored header that is off the canonical chain
 	default:
 		op.Kind = "mut"
 		op.Mut = rapid.SampledFrom(c29Muts).Draw(t, "mut")
@@ -167,6 +169,18 @@ func (m *chainModel) buildOp(op c29Op, tip *node) (*types.Header, string) {
 			k = 8
 		}
 		p = m.stored[len(m.stored)-1-(op.Parent%k)]
+	}
+	if op.Kind == "side" {
+		onCanon := map[*node]bool{}
+		for q := tip; q != nil; q = q.parent {
+			onCanon[q] = true
+		}
+		for i := len(m.stored) - 1; i >= 0; i-- {
+			if !onCanon[m.stored[i]] {
+				p = m.stored[i]
+				break
+			}
+		}
 	}
 	switch e.ad.kind {
 	case "clique":
